@@ -12,10 +12,20 @@
 #include "verif_common.h"
 #include "myth_tls_func.h"
 
-typedef struct { int type; myth_tls_entry_t entries[myth_tls_tree_node_n_entries_in_leaf]; } verif_leaf_t;
+/* a leaf is myth_tls_tree_node_sz_leaf raw bytes accessed through myth_tls_tree_node_t (entries[] used beyond its
+   declared bound of 1, as the library does on malloc'ed / pool memory); a typed look-alike struct is NOT equivalent
+   for CBMC (reads of entries[4..15] through the node type returned garbage) */
+typedef struct { long raw[(myth_tls_tree_node_sz_leaf + 7) / 8]; } verif_leaf_t;
+#define LEAFN(p) ((myth_tls_tree_node_t *)(p))
+#define LEAVES_N 6
+void * LEAFP[LEAVES_N];               /* malloc'ed untyped in the harness, exactly like the library's own leaves */
+#define LEAVES(i) (LEAFP[i])
+/* accessors taking the node through a pointer variable, like the library does (a constant address folded into the
+   access makes CBMC apply the declared bound entries[1]) */
+static void leaf_set(myth_tls_tree_node_t * p, int j, void * v) { p->entries[j].value = v; }
+static void leaf_type(myth_tls_tree_node_t * p) { p->type = myth_tls_tree_node_type_leaf; }
 
 myth_tls_tree_node_t NODES[7];           /* internal nodes available to a harness */
-verif_leaf_t LEAVES[6];                  /* leaf nodes available to a harness */
 myth_tls_key_allocator_t KA;
 myth_tls_tree_t T;
 char VALCELL[2];
@@ -25,6 +35,7 @@ myth_tls_tree_node_t * g_path[4];
 void * g_val;
 _Bool g_has_d;
 int   g_watch_calls, g_watch_bad_arg, g_other_got_watched;
+void * g_leaf;                   /* the leaf of g_k seen with its real layout (NULL: the thread never created it) */
 
 static void D_watch(void * v) {
   g_watch_calls++;
@@ -40,11 +51,19 @@ static void D_other(void * v) {
 #define CIDX(d)   ((g_k >> (myth_tls_tree_node_log_n_entries_in_leaf + myth_tls_tree_node_log_n_children * (myth_tls_tree_depth - 1 - (d)))) & (myth_tls_tree_node_n_children - 1))
 #define LEVEL_OK(depth, base, stride) \
   (0 <= (depth) && (depth) <= myth_tls_tree_depth && (stride) == STRIDE(depth) && 0 <= (base) && (base) % (stride) == 0 && (base) + (stride) <= NK)
+/* CBMC 6.11 under --dfcc mis-reads `p->children[symbolic]` / `p->entries[symbolic]` (anonymous-union member through a
+   pointer with a symbolic index yields the bytes at struct offset 0; reproduced in 25 lines, see DESIGN §7).
+   The specification therefore only ever indexes these arrays with constants: */
+#define CHILD_AT(n, i) ((i) == 0 ? (n)->children[0] : (i) == 1 ? (n)->children[1] : (i) == 2 ? (n)->children[2] : (n)->children[3])
+#define E_(n, j) (n)->entries[j].value
+#define ENTRY_AT(n, i) ((i) == 0 ? E_(n,0) : (i) == 1 ? E_(n,1) : (i) == 2 ? E_(n,2) : (i) == 3 ? E_(n,3) : (i) == 4 ? E_(n,4) : (i) == 5 ? E_(n,5) : \
+                        (i) == 6 ? E_(n,6) : (i) == 7 ? E_(n,7) : (i) == 8 ? E_(n,8) : (i) == 9 ? E_(n,9) : (i) == 10 ? E_(n,10) : (i) == 11 ? E_(n,11) : \
+                        (i) == 12 ? E_(n,12) : (i) == 13 ? E_(n,13) : (i) == 14 ? E_(n,14) : E_(n,15))
 /* what the node handed to the walk must look like when it is responsible for g_k */
 #define PATH_OK(n, depth) \
   ((n) == g_path[depth] && \
-   ((depth) < myth_tls_tree_depth ? (n)->children[CIDX(depth)] == g_path[(depth) + 1] \
-                                  : (n)->entries[g_k & (myth_tls_tree_node_n_entries_in_leaf - 1)].value == g_val))
+   ((depth) < myth_tls_tree_depth ? CHILD_AT(n, CIDX(depth)) == g_path[(depth) + 1] \
+                                  : ((void *)(n) == (void *)g_leaf && ENTRY_AT(LEAFN(g_leaf), g_k & (myth_tls_tree_node_n_entries_in_leaf - 1)) == g_val)))
 #define EXPECT_CALL (g_path[3] != 0 && g_has_d)
 
 /* ------------------------------------------------------------------ destructor walk */
@@ -53,7 +72,11 @@ int destructors_rec_contract(myth_tls_tree_node_t * n, int depth, myth_key_t bas
   __CPROVER_requires(ka == &KA && n != 0 && LEVEL_OK(depth, base, stride))
   __CPROVER_requires(INRANGE(base, stride) ==> PATH_OK(n, depth))
   __CPROVER_requires(0 <= g_watch_calls && g_watch_calls <= 1)
-  __CPROVER_assigns(g_watch_calls, g_watch_bad_arg, g_other_got_watched, __CPROVER_object_whole(LEAVES))
+  /* frame: the ghosts, and the leaves of the subtree (a leaf call: exactly its own leaf) */
+  __CPROVER_assigns(g_watch_calls, g_watch_bad_arg, g_other_got_watched;
+                    depth == myth_tls_tree_depth: __CPROVER_object_upto(n, sizeof(verif_leaf_t));
+                    depth < myth_tls_tree_depth: __CPROVER_object_whole(LEAFP[0]), __CPROVER_object_whole(LEAFP[1]), __CPROVER_object_whole(LEAFP[2]),
+                                                 __CPROVER_object_whole(LEAFP[3]), __CPROVER_object_whole(LEAFP[4]), __CPROVER_object_whole(LEAFP[5]))
   /* exactly one call when the thread holds a non-NULL value under g_k in this subtree; for a NULL value a call
      (with NULL) is tolerated, not demanded; never a call from a subtree that is not responsible for g_k */
   __CPROVER_ensures((INRANGE(base, stride) && EXPECT_CALL && g_val != 0) ==> g_watch_calls == __CPROVER_old(g_watch_calls) + 1)
@@ -66,9 +89,19 @@ int destructors_rec_contract(myth_tls_tree_node_t * n, int depth, myth_key_t bas
 void * g_wn; int g_wn_depth; int g_wn_frees;      /* witness node (the path node of level g_wn_depth) */
 void real_free(void * p) { if (p == g_wn) g_wn_frees++; }
 
+/* myth_tls_tree_node_free decides "node lies in the descriptor's embedded pool" by comparing the node address with
+   the pool bounds.  For a node outside the pool this is a relational comparison of pointers into different
+   objects, which CBMC evaluates arbitrarily (probed: a malloc'ed block is "inside" a static buffer in some
+   model).  The walk is therefore proved against this contract of node_free (flat address space: distinct
+   objects do not overlap -- assumed), and node_free's own body is proved for pool nodes in job c11.node_free.pool */
+void node_free_contract(myth_tls_tree_t * t, myth_tls_tree_node_t * n)
+  __CPROVER_requires(t == &T && n != 0)
+  __CPROVER_assigns(g_wn_frees)
+  __CPROVER_ensures(g_wn_frees == __CPROVER_old(g_wn_frees) + (((void *)n == g_wn && !__CPROVER_same_object(n, &T)) ? 1 : 0));
+
 int destroy_rec_contract(myth_tls_tree_t * t, myth_tls_tree_node_t * n, int depth, myth_key_t base, myth_key_t stride)
   __CPROVER_requires(t == &T && n != 0 && LEVEL_OK(depth, base, stride))
-  __CPROVER_requires(INRANGE(base, stride) ==> (n == g_path[depth] && (depth < myth_tls_tree_depth ==> n->children[CIDX(depth)] == g_path[depth + 1])))
+  __CPROVER_requires(INRANGE(base, stride) ==> (n == g_path[depth] && (depth < myth_tls_tree_depth ==> CHILD_AT(n, CIDX(depth)) == g_path[depth + 1])))
   __CPROVER_requires(!INRANGE(base, stride) ==> n != g_wn)
   __CPROVER_requires(0 <= g_wn_frees && g_wn_frees <= 1)
   __CPROVER_assigns(g_wn_frees)
@@ -76,71 +109,92 @@ int destroy_rec_contract(myth_tls_tree_t * t, myth_tls_tree_node_t * n, int dept
      provided it lies at or below this level */
   __CPROVER_ensures(g_wn_frees == __CPROVER_old(g_wn_frees) + ((INRANGE(base, stride) && g_wn_depth >= depth && g_wn != 0) ? 1 : 0));
 
-/* ------------------------------------------------------------------ harness memory: one node of an arbitrary
-   level with its (up to) four children, the witness path threaded through it */
+/* ------------------------------------------------------------------ harness memory: one node of level DEPTH with
+   its (up to) four children, the witness path threaded through it.  One job per level (-DDEPTH=0..3); the code
+   for the other levels is compiled out so that no pointer's value set mixes node and leaf objects (CBMC 6.11
+   mis-reads through such pointers, DESIGN §7). */
+#ifndef DEPTH
+#define DEPTH 0
+#endif
+/* shadow copy of every child pointer written below, in a plain array: the harness never reads the union arrays
+   with a symbolic index (CBMC 6.11 returns stale values for such reads, DESIGN §7) */
+myth_tls_tree_node_t * SHC[5][4];
 static myth_tls_tree_node_t * setup_level(int depth, myth_key_t base) {
-  int i;
+  int i, j;
   myth_tls_tree_node_t * n;
+  { myth_tls_tree_node_t z = { 0 }; verif_leaf_t zl = { { 0 } };
+    for (i = 0; i < 7; i++) NODES[i] = z;
+    for (i = 0; i < LEAVES_N; i++) { LEAFP[i] = malloc(myth_tls_tree_node_sz_leaf); __CPROVER_assume(LEAFP[i] != 0); } }
   g_k = nondet_int(); __CPROVER_assume(0 <= g_k && g_k < NK);
   g_has_d = nondet_bool();
   g_val = nondet_bool() ? (void *)&VALCELL[0] : 0;
   for (i = 0; i < NK; i++) KA.keys[i].destructor = nondet_bool() ? D_other : 0;
   KA.keys[g_k].destructor = g_has_d ? D_watch : 0;
-  g_path[0] = g_path[1] = g_path[2] = g_path[3] = 0;
-  if (depth < myth_tls_tree_depth) {
-    n = &NODES[0];
-    n->type = myth_tls_tree_node_type_internal;
-    for (i = 0; i < myth_tls_tree_node_n_children; i++) {
-      _Bool present = nondet_bool();
-      if (depth + 1 < myth_tls_tree_depth) {
-        NODES[1 + i].type = myth_tls_tree_node_type_internal;
-        n->children[i] = present ? &NODES[1 + i] : 0;
-        int j;
-        for (j = 0; j < myth_tls_tree_node_n_children; j++)    /* grandchildren: some object or NULL */
-          NODES[1 + i].children[j] = nondet_bool() ? (depth + 2 < myth_tls_tree_depth ? &NODES[5] : (myth_tls_tree_node_t *)&LEAVES[4]) : 0;
-      } else {
-        LEAVES[i].type = myth_tls_tree_node_type_leaf;
-        n->children[i] = present ? (myth_tls_tree_node_t *)&LEAVES[i] : 0;
-        int j;
-        for (j = 0; j < myth_tls_tree_node_n_entries_in_leaf; j++) LEAVES[i].entries[j].value = nondet_bool() ? (void *)&VALCELL[1] : 0;
-      }
+  g_path[0] = g_path[1] = g_path[2] = g_path[3] = 0; g_leaf = 0;
+#if DEPTH < 3
+  n = &NODES[0];
+  n->type = myth_tls_tree_node_type_internal;
+  for (i = 0; i < myth_tls_tree_node_n_children; i++) {
+    _Bool present = nondet_bool();
+#if DEPTH + 1 < 3
+    NODES[1 + i].type = myth_tls_tree_node_type_internal;
+    n->children[i] = present ? &NODES[1 + i] : 0; SHC[0][i] = n->children[i];
+    for (j = 0; j < myth_tls_tree_node_n_children; j++) {  /* grandchildren: some node (or leaf, seen only as an address) or NULL */
+      myth_tls_tree_node_t * g = nondet_bool() ? &NODES[5] : 0;
+      NODES[1 + i].children[j] = g; SHC[1 + i][j] = g;
     }
-  } else {
-    n = (myth_tls_tree_node_t *)&LEAVES[0];
-    LEAVES[0].type = myth_tls_tree_node_type_leaf;
-    for (i = 0; i < myth_tls_tree_node_n_entries_in_leaf; i++) LEAVES[0].entries[i].value = nondet_bool() ? (void *)&VALCELL[1] : 0;
+#else
+    leaf_type(LEAFN(LEAFP[i]));
+    n->children[i] = present ? LEAFN(LEAFP[i]) : 0; SHC[0][i] = n->children[i];
+    for (j = 0; j < myth_tls_tree_node_n_entries_in_leaf; j++) leaf_set(LEAFN(LEAFP[i]), j, nondet_bool() ? (void *)&VALCELL[1] : 0);
+#endif
   }
+#else
+  n = LEAFN(LEAFP[0]);
+  leaf_type(n);
+  for (i = 0; i < myth_tls_tree_node_n_entries_in_leaf; i++) leaf_set(n, i, nondet_bool() ? (void *)&VALCELL[1] : 0);
+#endif
   /* thread the witness path through this node when it is responsible for g_k */
   if (INRANGE(base, STRIDE(depth))) {
     int d;
-    for (d = 0; d <= myth_tls_tree_depth && d <= depth; d++) g_path[d] = (d == depth) ? n : &NODES[6];      /* ancestors: some non-NULL node */
-    if (depth < myth_tls_tree_depth) {
-      myth_tls_tree_node_t * c = n->children[CIDX(depth)];
-      g_path[depth + 1] = c;
-      if (c && depth + 1 < myth_tls_tree_depth) {
-        myth_tls_tree_node_t * gc = c->children[CIDX(depth + 1)];
-        g_path[depth + 2] = gc;
-        if (gc && depth + 2 < myth_tls_tree_depth) g_path[3] = nondet_bool() ? (myth_tls_tree_node_t *)&LEAVES[4] : 0;
-      } else if (c) {
-        LEAVES[CIDX(depth)].entries[g_k & 15].value = g_val;      /* c == &LEAVES[CIDX(depth)] */
-      }
-    } else {
-      LEAVES[0].entries[g_k & 15].value = g_val;
+    for (d = 0; d < DEPTH; d++) g_path[d] = &NODES[6];            /* ancestors: some non-NULL node */
+    g_path[DEPTH] = n;
+#if DEPTH < 3
+    int ci = CIDX(DEPTH);
+    _Bool cpresent = SHC[0][ci] != 0;
+#if DEPTH + 1 < 3
+    g_path[DEPTH + 1] = cpresent ? &NODES[1 + ci] : 0;
+    if (cpresent) {
+      myth_tls_tree_node_t * gc = SHC[1 + ci][CIDX(DEPTH + 1)];
+      g_path[DEPTH + 2] = gc;
+#if DEPTH + 2 < 3
+      if (gc) g_path[3] = nondet_bool() ? (myth_tls_tree_node_t *)LEAFP[5] : 0;
+#endif
     }
+#else
+    g_path[3] = cpresent ? SHC[0][ci] : 0;
+    if (cpresent) {
+      g_leaf = LEAFP[ci];
+      for (i = 0; i < 4; i++) for (j = 0; j < 16; j++) if (i == ci && j == (g_k & 15)) leaf_set(LEAFN(LEAFP[i]), j, g_val);   /* constant indices only */
+    }
+#endif
+#else
+    g_leaf = LEAFP[0];
+    for (j = 0; j < 16; j++) if (j == (g_k & 15)) leaf_set(LEAFN(LEAFP[0]), j, g_val);       /* constant indices only */
+#endif
   } else {
     /* not responsible: the path lives elsewhere in the tree */
     g_path[0] = nondet_bool() ? &NODES[6] : 0;
     g_path[1] = g_path[0] && nondet_bool() ? &NODES[6] : 0;
     g_path[2] = g_path[1] && nondet_bool() ? &NODES[6] : 0;
-    g_path[3] = g_path[2] && nondet_bool() ? (myth_tls_tree_node_t *)&LEAVES[5] : 0;
+    g_path[3] = g_path[2] && nondet_bool() ? (myth_tls_tree_node_t *)LEAFP[5] : 0;
   }
   g_watch_calls = 0; g_watch_bad_arg = 0; g_other_got_watched = 0;
   return n;
 }
 
 void h_destructors_rec(void) {
-  int depth = nondet_int(); myth_key_t base = nondet_int();
-  __CPROVER_assume(0 <= depth && depth <= myth_tls_tree_depth);
+  int depth = DEPTH; myth_key_t base = nondet_int();      /* one job per level: 0,1,2 internal, 3 leaf */
   __CPROVER_assume(0 <= base && base < NK && base % STRIDE(depth) == 0 && base + STRIDE(depth) <= NK);
   myth_tls_tree_node_t * n = setup_level(depth, base);
   myth_tls_call_destructors_rec(n, depth, base, STRIDE(depth), &KA);
@@ -148,8 +202,7 @@ void h_destructors_rec(void) {
 }
 
 void h_destroy_rec(void) {
-  int depth = nondet_int(); myth_key_t base = nondet_int();
-  __CPROVER_assume(0 <= depth && depth <= myth_tls_tree_depth);
+  int depth = DEPTH; myth_key_t base = nondet_int();
   __CPROVER_assume(0 <= base && base < NK && base % STRIDE(depth) == 0 && base + STRIDE(depth) <= NK);
   myth_tls_tree_node_t * n = setup_level(depth, base);
   g_wn_depth = nondet_int(); __CPROVER_assume(0 <= g_wn_depth && g_wn_depth <= myth_tls_tree_depth);
@@ -167,7 +220,7 @@ void h_fini(void) {
   _Bool has_root = nondet_bool();
   T.root = has_root ? n : 0;
   if (!has_root) { g_path[0] = g_path[1] = g_path[2] = g_path[3] = 0; }
-  T.pre_alloc_p = T.pre_alloc_buf;
+  { unsigned off = nondet_unsigned(); __CPROVER_assume(off <= myth_tls_tree_pre_alloc_sz); T.pre_alloc_p = T.pre_alloc_buf + off; }   /* any pool fill level */
   g_wn_depth = nondet_int(); __CPROVER_assume(0 <= g_wn_depth && g_wn_depth <= myth_tls_tree_depth);
   g_wn = g_path[g_wn_depth];
   g_wn_frees = 0;
@@ -180,6 +233,17 @@ void h_fini(void) {
   __CPROVER_assert(g_has_d || g_watch_calls == 0, "C11: no call for a key registered without destructor");
   __CPROVER_assert(g_path[3] != 0 || g_watch_calls == 0, "C11: no call for a key whose leaf the thread never created");
   __CPROVER_assert(g_wn_frees == (g_wn != 0 ? 1 : 0), "C11/C12: every node of the tree is released exactly once");
+  VERIF_CANARY();
+}
+
+/* node_free on a node that lies inside the embedded pool: never handed to free */
+int g_any_free;
+void h_node_free_pool(void) {
+  unsigned off = nondet_unsigned();
+  __CPROVER_assume(off < myth_tls_tree_pre_alloc_sz);
+  g_wn = T.pre_alloc_buf + off; g_wn_frees = 0;
+  myth_tls_tree_node_free(&T, (myth_tls_tree_node_t *)(T.pre_alloc_buf + off));
+  __CPROVER_assert(g_wn_frees == 0, "C11/C12: a node from the descriptor's embedded pool is never handed to free");
   VERIF_CANARY();
 }
 
@@ -199,6 +263,36 @@ void h_debug(void) {
       __CPROVER_assert(c == g_path[depth + 1], "dbg: c is path");
       int d1 = depth + 1;
       __CPROVER_assert(PATH_OK(c, d1), "dbg: PATH_OK(c)");
+    }
+  }
+}
+#endif
+#ifdef VERIF_DEBUG
+void h_dbg2(void) {
+  myth_tls_tree_node_t * n = setup_level(0, 0);
+  myth_tls_tree_node_t * c = n->children[CIDX(0)];
+  if (c) {
+    myth_tls_tree_node_t * gc = c->children[CIDX(1)];
+    __CPROVER_assert(gc == 0 || gc == &NODES[5], "dbg2: gc is NULL or NODES[5]");
+    int ci = CIDX(0);
+    myth_tls_tree_node_t * gc2 = NODES[1 + ci].children[CIDX(1)];
+    __CPROVER_assert(gc2 == gc, "dbg2: same through array");
+    __CPROVER_assert(c == &NODES[1 + ci], "dbg2: c is canonical");
+  }
+}
+#endif
+#ifdef VERIF_DEBUG
+void h_dbg3(void) {
+  myth_tls_tree_node_t * n = setup_level(0, 0);
+  int i;
+  for (i = 0; i < 4; i++) {
+    myth_tls_tree_node_t * c = n->children[i];
+    if (c) {
+      int depth = 1; int base = i * 256; int stride = 256;
+      __CPROVER_assert(LEVEL_OK(depth, base, stride), "dbg3: level ok");
+      __CPROVER_assert(!INRANGE(base, stride) || c == g_path[depth], "dbg3: c is path node");
+      __CPROVER_assert(!INRANGE(base, stride) || CHILD_AT(c, CIDX(depth)) == g_path[depth + 1], "dbg3: child link");
+      __CPROVER_assert(INRANGE(base, stride) ==> (c == g_path[depth] && (depth < myth_tls_tree_depth ==> CHILD_AT(c, CIDX(depth)) == g_path[depth + 1])), "dbg3: whole clause");
     }
   }
 }
